@@ -305,3 +305,23 @@ ADDENDA5 = {
 }
 for _k, _v in ADDENDA5.items():
     CLAIMS[_k]["text"] = CLAIMS[_k]["text"].rstrip() + " " + _v
+ADDENDA6 = {
+    "C01": "Round 7: a comparison's verdict is its operator applied once to the operand values of the binding; computed variables are not part of the key of exists; the structural tree decides a node's role only when it has no evaluation parent (EP-SELECTED is discharged by that fact).",
+    "C02": "Round 7: shares CMP-APPLY and the argument-identity obligation of ARG-SYMBOLIC.",
+    "C03": "Round 7: a shared one-shot source is advanced only under a cache discipline every live iteration re-reads (the round-1 finding is repaired); no generator of a long-lived object yields from inside an iteration over a live view of a container it mutates.",
+    "C04": "Round 7: whether from_dao hands a constructor argument over never depends on the value found.",
+    "C06": "Round 7: shares WF-RESOLVED.",
+    "C07": "Round 7: the operands of a disjunction are translated while the mark is raised; a table is recorded as joined only if that FROM element was joined.",
+    "C11": "Round 7: which plain pattern values are collections is decided per kind of value over Python's own isinstance table.",
+    "C12": "Round 7: every parameter of a symbolic call gets the caller's argument itself.",
+    "C13": "Round 7: the subclass enumeration is not memoised; shares LIVE-ITER; IDKEY is discharged while the domain iterator delivers each identity once.",
+    "C14": "Round 7: every relation is an edge of its own (multigraph, per-edge readers).",
+    "C15": "Round 7: shares REL-EDGES; relations over one managed field have one identity whichever wrapper they were built from.",
+    "C16": "Round 7: the snapshot read after the clear is a fresh container on every path; a slice rebuilt from indices() copes with counting down; shares PD-FIELD.",
+    "C17": "Round 7: mixin enums and subclasses of value types are in the type model; resolved types come from get_type_hints.",
+    "C18": "Round 7: JSON leaves pass through reader and writer unchanged.",
+    "C19": "Round 7: no library error is caught and relabelled by a converting handler around nested deserialisation.",
+    "C20": "Round 7: shares REL-EDGES.",
+}
+for _k, _v in ADDENDA6.items():
+    CLAIMS[_k]["text"] = CLAIMS[_k]["text"].rstrip() + " " + _v
